@@ -533,7 +533,10 @@ def stress(ctx):
            # whole numbers beyond 2**53 are still whole numbers
            'run10000000000000001_a', 'run10000000000000000_b',
            'r9007199254740993', 'r9007199254740992x',
-           '18446744073709551617', '18446744073709551616b']
+           '18446744073709551617', '18446744073709551616b',
+           # numbers equal in value, spelled differently: the id's own text
+           # decides among them
+           't1', 't01', 't001', 'u2.0', 'u2', 'u02', 'u2.00']
     for axis in ('sample', 'observation'):
         ids = list(odd)
         r.shuffle(ids)
